@@ -35,10 +35,16 @@ Definition xop_of (x : xopc) : option xop :=
   let off := x_off x in let a := x_a x in let b := x_b x in let c := x_c x in
   match x_code x with
   | 0 => Some (XWrite off a) | 1 => Some (XRead off a) | 2 => Some (XSliceGuard off a (negb (b =? 0)))
-  | 3 => Some (XRefStore off a) | 4 => Some (XRefLoad off a)
-  | 5 => Some (XArrStore off a b c) | 6 => Some (XArrLoad off a b c)
-  | 7 => Some (XArrCopyFrom off a b c) | 8 => Some (XArrCopyTo off a b c)
+  | 3 => if a =? 0 then None else Some (XRefStore off a)      (* element sizes are 1..16: never 0 *)
+  | 4 => if a =? 0 then None else Some (XRefLoad off a)
+  | 5 => if a =? 0 then None else Some (XArrStore off a b c)
+  | 6 => if a =? 0 then None else Some (XArrLoad off a b c)
+  | 7 => if a =? 0 then None else Some (XArrCopyFrom off a b c)
+  | 8 => if a =? 0 then None else Some (XArrCopyTo off a b c)
   | 9 => Some (XAtomicLoad off a) | 10 => Some (XCopyToVS off a)
+  | 11 => Some (XReadFrom off a b) | 12 => Some (XWriteTo off a)
+  | 13 => if b =? 0 then None else Some (XSliceCopyFrom off a b c)
+  | 14 => if b =? 0 then None else Some (XSliceCopyTo off a b c)
   | _ => None end.
 
 Fixpoint xops_of (l : list xopc) {struct l} : option (list xop) :=
